@@ -101,7 +101,12 @@ class C01(Prop):
             # thorough: for some programs *every* fault point the dry run reached is tried (first and last call)
             'all_faults': st.integers(0, 49).map(lambda x: x == 0 and tier != 'quick'),
         }).map(align)
-        return st.one_of(*([general] * 30 + [host_lock]))
+        # the configuration dict handed to deep.start() is an object of the application: its final content is part of the
+        # program's final data
+        start_config = fd({'mode': st.just('start_config'),
+                           'keys': st.lists(st.sampled_from(['SERVICE_URL', 'APP_ROOT', 'POLL_TIMER', 'IN_APP_INCLUDE',
+                                                             'MY_OWN_KEY']), max_size=3, unique=True)})
+        return st.one_of(*([general] * 30 + [host_lock, start_config]))
 
     # -------------------------------------------------------------------------------------------------
     def build_triggers(self, recipe, rendered):
@@ -284,9 +289,30 @@ def case_host_lock(self, recipe):
     return out
 
 
+def case_start_config(self, recipe):
+    from vf.props.C19 import PROP as C19P
+    out = Outcome()
+    out.cls('start_with_application_config_dict')
+    out.nontrivial = True
+    values = {'SERVICE_URL': 'localhost:1', 'APP_ROOT': '/app', 'POLL_TIMER': 1000, 'IN_APP_INCLUDE': '/app/pkg',
+              'MY_OWN_KEY': ['the', 'application', 'keeps', 'this']}
+    cfg = {'SERVICE_SECURE': 'False', 'POLL_TIMER': 1000}
+    cfg.update({k: values[k] for k in recipe['keys']})
+    obs = C19P.observe(cfg, {})
+    if 'start' in obs:
+        out.violate('start_config: deep.start %s' % obs['start'])
+    elif obs.get('caller_dict_changed'):
+        out.violate('deep.start changed the configuration dict the application passed in',
+                    {'changed': obs['caller_dict_changed']})
+    lab.reset_world()
+    return out
+
+
 def run_case(self, recipe):
     if recipe.get('mode') == 'host_lock':
         return case_host_lock(self, recipe)
+    if recipe.get('mode') == 'start_config':
+        return case_start_config(self, recipe)
     out = Outcome()
     rendered = progs.render(recipe['prog'])
     base, _, _, _ = self.one_run(recipe, rendered, with_agent=False)
